@@ -251,9 +251,9 @@ func (x *Exprer) compute(v ssa.Value) *Expr {
 		st := derefStruct(v.X.Type())
 		return x.mkField(st.Field(v.Field).Name(), v, x.E(v.X))
 	case *ssa.IndexAddr:
-		return mk("index", "", v, x.E(v.X), x.E(v.Index))
+		return mkIndex(v, x.E(v.X), x.E(v.Index))
 	case *ssa.Index:
-		return mk("index", "", v, x.E(v.X), x.E(v.Index))
+		return mkIndex(v, x.E(v.X), x.E(v.Index))
 	case *ssa.Lookup:
 		// membership in a set kept as map[K]bool (m[k]) or map[K]struct{} (_, ok := m[k]) is the same question
 		if mt, ok := v.X.Type().Underlying().(*types.Map); ok && isSetValue(mt.Elem()) {
@@ -1181,4 +1181,15 @@ func isSetValue(t types.Type) bool {
 		return u.NumFields() == 0
 	}
 	return false
+}
+
+// mkIndex: element k of a list written out in place is that element (`coins := Coins{c}; coins[0]` is c).
+func mkIndex(v ssa.Value, base, idx *Expr) *Expr {
+	if base.Op == "list" && idx.Op == "const" {
+		var k int
+		if _, err := fmt.Sscanf(idx.Name, "%d", &k); err == nil && k >= 0 && k < len(base.Args) {
+			return base.Args[k]
+		}
+	}
+	return mk("index", "", v, base, idx)
 }
